@@ -115,10 +115,12 @@ def lemma_ident(rep, F, L):
             ifs = [x for x in p if x.get("k") == "If" and show(x["cond"]) == "options.coalesce"]
             okc = bool(ifs) and "self.detection.expression = optimiser::coalesce(self.detection.expression, self.detection.identifiers); <K, V, S, A>::clear(self.detection.identifiers)" in show(ifs[-1]["then"])
         chk(rep, L, "L-IDENT", okc, "L-IDENT/clear-after-coalesce", ro.sp, "identifiers is cleared only right after coalesce inlined them", "")
-        for i, pas in enumerate(("shake", "rewrite", "matrix")):
-            c = F.fn("rule::Rule::optimise::{closure#%d}" % i)
-            s = show(c.body) if c else "-"
-            chk(rep, L, "L-IDENT", s == "(k, optimiser::%s(v))" % pas, "L-IDENT/keys-kept/" + pas, c.sp if c else ro.sp, "%s maps (k, v) to (k, %s(v)): keys unchanged" % (pas, pas), s)
+        import optsites
+        osites = optsites.sites(F) or []
+        for pas in ("shake", "rewrite", "matrix"):
+            mine = [s_ for s_ in osites if s_["pass"] == "optimiser::" + pas]
+            chk(rep, L, "L-IDENT", len(mine) == 1 and mine[0]["keys_kept"], "L-IDENT/keys-kept/" + pas, mine[0]["sp"] if mine else ro.sp, "%s maps (k, v) to (k, %s(v)): keys unchanged" % (pas, pas), mine[0]["detail"] if mine else "no such site")
+        chk(rep, L, "L-IDENT", len(osites) == 3 and all(s_["pass"] for s_ in osites), "L-IDENT/keys-kept/sites", ro.sp, "the identifier map is reassigned only by these three key-preserving maps", "; ".join(str(s_["detail"])[:60] for s_ in osites if not s_["pass"]))
     # (iv) coalesce congruence
     co = F.fn("optimiser::coalesce")
     if co is None:
@@ -135,7 +137,13 @@ def lemma_ident(rep, F, L):
                     got[v_[1]] = len([x for x in walk(a["body"]) if call_is(x, "optimiser::coalesce")])
                 if v_ and v_[1] == "Identifier":
                     s = show(a["body"])
-                    chk(rep, L, "L-IDENT", s == "Clone::clone(<T>::expect(<K, V, S, A>::get(identifiers, i), \"..\"))", "L-IDENT/coalesce-lookup", a["sp"], "coalesce replaces an identifier by its definition", s[:80])
+                    nb = strip_ref(subpat(a["pat"], 0))
+                    idp = [strip_ref(p_["pat"]).get("id") for p_ in co.thir["params"] if p_.get("pat")]
+                    b0 = unblock(a["body"])
+                    e0 = peel(b0["args"][0]) if call_is(b0, "Clone::clone") else {}
+                    g0 = peel(e0["args"][0]) if call_is(e0, "::expect") or call_is(e0, "::unwrap") else {}
+                    okl = call_is(g0, ">::get") and len(g0["args"]) == 2 and len(idp) == 2 and q.var_id(g0["args"][0]) == idp[1] and nb is not None and q.var_id(g0["args"][1]) == nb.get("id")
+                    chk(rep, L, "L-IDENT", okl, "L-IDENT/coalesce-lookup", a["sp"], "coalesce replaces an identifier by (a clone of) its definition in the identifier map", s[:80])
             leaves = [pat_str(a["pat"]) for a in m["arms"] if not variant_of(a["pat"]) or strip_ref(a["pat"]).get("k") == "Or"]
         chk(rep, L, "L-IDENT", got == want, "L-IDENT/coalesce-congruence", co.sp, "coalesce recurses into every child of every composite node", str(got))
 
@@ -164,7 +172,7 @@ def lemma_shape(rep, F, L):
     if top and top.get("k") == "Match":
         for a in top["arms"]:
             b = unblock(a["body"])
-            if call_is(b, "panicking::panic"):
+            if facts._panics(b) is not None:
                 final = a
             else:
                 for p in or_pats(a["pat"]):
@@ -523,12 +531,28 @@ def make_rules(F, L):
         if s.kind not in ("panic", "expect"):
             return None
         n = s.node
-        if s.fn == "optimiser::coalesce" and "get(identifiers, i)" in show(n):
+        if s.fn not in ("optimiser::coalesce", "solver::solve_expression"):
+            return None
+        # `identifiers.get(<the name bound by the enclosing Expression::Identifier pattern>)` must succeed: as expect(..), or
+        # (normalised to it) as the panicking None arm of a match on it
+        f = F.fns[s.fn]
+        idents = [strip_ref(p["pat"]).get("id") for p in f.thir["params"] if p.get("pat") and "HashMap<std::string::String, parser::Expression>" in strip_ref(p["pat"]).get("ty", "")]
+        names = set()
+        for e in q.context(s.path, n):
+            if e[0] == "arm":
+                for alt in or_pats(e[1]):
+                    if variant_of(alt) and variant_of(alt)[1] == "Identifier":
+                        b = strip_ref(subpat(alt, 0))
+                        if b is not None and b.get("k") == "Bind":
+                            names.add(b["id"])
+        g = peel(n["args"][0]) if n.get("k") == "Call" and (n.get("fn") or "").endswith("::expect") and n["args"] else None
+        if g is None and s.kind == "panic":
+            # the panicking arm of a several-armed match on the lookup (e.g. Some(group) / Some(other) / _ => unreachable!())
+            arms = [e for e in q.context(s.path, n) if e[0] == "arm"]
+            if arms and strip_ref(arms[-1][1]).get("k") in ("Wild",) or (arms and variant_of(arms[-1][1]) == ("Option", "None")):
+                g = peel(arms[-1][2])
+        if g is not None and call_is(g, ">::get") and len(g["args"]) == 2 and q.var_id(g["args"][0]) in idents and q.var_id(g["args"][1]) in names:
             return ("D-IDENT", "identifier exists (lemma L-IDENT)") if L.ok["L-IDENT"] else None
-        if s.fn == "solver::solve_expression" and s.kind == "panic":
-            for e in q.context(s.path, n):
-                if e[0] == "arm" and re.fullmatch(r"<K, V, S, A>::get\(identifiers, \w+\)", show(e[2])):
-                    return ("D-IDENT", "identifier exists (lemma L-IDENT)") if L.ok["L-IDENT"] else None
         return None
 
     def d_grammar(F, s):
@@ -659,6 +683,7 @@ def run(rep):
     if rep.tier == "thorough":
         import poscontrol
         poscontrol.panics(rep)
+        poscontrol.panic_forms(rep)
     rep.floor("L-IDENT", 10)
     rep.floor("L-SHAPE", 20)
     rep.floor("L-MATRIX", 25)
